@@ -14,11 +14,12 @@ SETI = "set_int"
 
 
 class FullGen(Gen):
-    def __init__(self, rng, heap_heavy=False, annotations=True, **kw):
+    def __init__(self, rng, heap_heavy=False, annotations=True, allow_type_decls=True, **kw):
         kw.setdefault("py_compat", False)
         super().__init__(rng, **kw)
         self.heap_heavy = heap_heavy
         self.annotations = annotations
+        self.allow_type_decls = allow_type_decls
         self.nrec = 0
         self.records = []  # (type name, fields)
         self.enums = []
@@ -109,7 +110,7 @@ class FullGen(Gen):
         self.nstmts += 1
         k = r.randrange(16)
         top = indent == 0
-        if k == 0 and top and len(self.records) < 3:
+        if k == 0 and top and self.allow_type_decls and len(self.records) < 3:
             self.nrec += 1
             name = "R%d" % self.nrec
             fields = [("x", INT), ("y", self.ch([LI, STR, DSI]))]
@@ -117,7 +118,7 @@ class FullGen(Gen):
             self.emit_line(indent, "%s = record(x=int, y=%s)" % (name, self.ch([tyname[fields[1][1]], "typing.Any", "field(%s, %s)" % (tyname[fields[1][1]], self.lit(fields[1][1]))])))
             self.records.append((name, fields))
             return
-        if k == 1 and top and len(self.enums) < 2:
+        if k == 1 and top and self.allow_type_decls and len(self.enums) < 2:
             name = "E%d" % (len(self.enums) + 1)
             vals = ["a", "b", "c"]
             self.emit_line(indent, '%s = enum("a", "b", "c")' % name)
@@ -219,6 +220,8 @@ class FullGen(Gen):
             for gg in self.mentioned(sc, ex):
                 self.union(g, gg)
             v.group = g
+            if (sc.loop_depth > 0 or sc.fn_scope() is not None) and v.ty in (LI, LS, LLI):
+                ex = "(%s)[:8]" % ex  # rebinding inside loops must not grow geometrically
             self.emit_line(indent, "%s = %s" % (v.name, ex))
             self.emit_line(indent, "emit(%s)" % v.name)
             return
@@ -278,6 +281,40 @@ class FullGen(Gen):
 def gen_program(rng, **kw):
     g = FullGen(rng, **kw)
     return g.program()
+
+
+def gen_library(rng, name, **kw):
+    """A module meant to be frozen and loaded: returns (lines, exported vars, exported pure fns)."""
+    kw.setdefault("inject_fail", 0.0)
+    g = FullGen(rng, **kw)
+    lines = g.program()
+    sc = g.top_scope
+    vars_ = [v for v in sc.vars if v.ty in ALL_TYPES and not v.name.startswith("_")]
+    fns = [f for f in sc.fns if not f.mut_params and not f.mut_groups and f.name != "undefined_fn_arity"]
+    return lines, vars_, fns
+
+
+def gen_client(rng, libs, **kw):
+    """A program that loads symbols from libraries [(file, vars, fns)] and uses them."""
+    pre_lines, pre_vars, pre_fns = [], [], []
+    for li, (file, vars_, fns) in enumerate(libs):
+        vs = rng.sample(vars_, min(len(vars_), rng.randint(1, 5))) if vars_ else []
+        fs = rng.sample(fns, min(len(fns), rng.randint(0, 3))) if fns else []
+        if not vs and not fs:
+            continue
+        binds = []
+        for v in vs:
+            local = "L%d_%s" % (li, v.name)
+            binds.append('%s="%s"' % (local, v.name))
+            pre_vars.append(Var(local, v.ty, v.group))
+        for f in fs:
+            local = "L%d_%s" % (li, f.name)
+            binds.append('%s="%s"' % (local, f.name))
+            nf = gen_core.Fn(local, f.params, f.ret, [], set())
+            pre_fns.append(nf)
+        pre_lines.append('load("%s", %s)' % (file, ", ".join(binds)))
+    g = FullGen(rng, **kw)
+    return g.program(pre_lines=pre_lines, pre_vars=pre_vars, pre_fns=pre_fns)
 
 
 render = gen_core.render
